@@ -2,6 +2,7 @@
 mod calls;
 mod common;
 mod edges;
+mod heap;
 mod history;
 mod jobs;
 
@@ -25,6 +26,7 @@ fn main() {
         Some("total-child") => history::total_child(&args[1..]),
         Some("opscan") => history::opscan(&args[1..]),
         Some("leak") => history::leak(&args[1..]),
+        Some("heapbfs") => heap::main(&args[1..]),
         Some("libgen") => history::libgen(&args[1..]),
         _ => {
             eprintln!("usage: pfv <run-jobs|...> ...");
